@@ -1,6 +1,6 @@
 //! C18 correspondence + oracle driver: the FULL cross product of the safety-relevant discrete settings on
 //! the real `KyroDbConfig::validate`, compared in Coq with the regenerated `Config_gen.validate`.
-//! usage: c18 --out DIR --n N [--replay FILE] [--guards Config_gen.json] [--server-samples K]
+//! usage: c18 --out DIR --n N [--replay FILE] [--guards Config_gen.json] [--server-samples K] [--variant-every D]
 //!   N = number of sampled rows that are additionally supplied through TOML / YAML / KYRODB__* environment
 //!       overrides / TOML+environment via the real `KyroDbConfig::load`.
 use kvh::rng::Rng;
@@ -418,7 +418,13 @@ fn coq_name(s: &str) -> String {
     format!("[{}]%N", parts.join("; "))
 }
 
-fn coq_row(name_ix: usize, r: &Row, accepted: bool, ct: &Ctors) -> String {
+/// One row of a cases file: a single number  ((name_ix * PER_NAME + ix) * 2 + observed)  that the
+/// header of the cases file decodes digit by digit (an independent implementation of `Row::from_index`).
+fn coq_row(name_ix: usize, r: &Row, accepted: bool, _ct: &Ctors) -> String {
+    format!("{}", (name_ix * PER_NAME + r.index()) * 2 + accepted as usize)
+}
+
+fn coq_row_readable(name_ix: usize, r: &Row, accepted: bool, ct: &Ctors) -> String {
     let g = |m: &BTreeMap<String, String>, k: String| m.get(&k).cloned().unwrap_or_else(|| format!("UNKNOWN_{}", k));
     format!(
         "R n{} {} {} {} {} {} {} {} {} {} {} {} {} {}",
@@ -427,27 +433,46 @@ fn coq_row(name_ix: usize, r: &Row, accepted: bool, ct: &Ctors) -> String {
         if r.snap_zero() { "SnapZero" } else { "SnapPositive" },
         g(&ct.recovery, format!("{:?}", r.recovery())),
         g(&ct.strategy, format!("{:?}", r.strategy())),
-        r.auth(),
-        r.rl(),
+        r.auth(), r.rl(),
         g(&ct.obs, format!("{:?}", r.obs())),
-        r.fresh(),
-        r.tls(),
-        r.grpc_loop(),
-        r.http() != 0,
-        r.http() == 1,
-        accepted
+        r.fresh(), r.tls(), r.grpc_loop(), r.http() != 0, r.http() == 1, accepted
     )
 }
 
-fn shard_text(names: &[String], body: &str) -> String {
+fn digit_fn(name: &str, ty: &str, ctors: Vec<String>) -> String {
+    let mut s = format!("Definition {} (d : N) : {} := match d with", name, ty);
+    for (i, c) in ctors.iter().enumerate() {
+        if i + 1 == ctors.len() { let _ = write!(s, " | _ => {}", c); } else { let _ = write!(s, " | {} => {}", i, c); }
+    }
+    s.push_str(" end.\n");
+    s
+}
+
+fn shard_text(names: &[String], body: &str, first: Option<(usize, &Row, bool)>, ct: &Ctors) -> String {
+    let g = |m: &BTreeMap<String, String>, k: String| m.get(&k).cloned().unwrap_or_else(|| format!("UNKNOWN_{}", k));
     let mut s = String::new();
-    s.push_str("From Coq Require Import List NArith Bool.\nFrom Kyro Require Import Model.RustStr gen.Config_gen.\nImport ListNotations.\n");
+    s.push_str("From Coq Require Import List NArith Bool.\nFrom Kyro Require Import Model.RustStr gen.Config_gen.\nImport ListNotations.\nOpen Scope N_scope.\n");
     s.push_str("(* one row = the raw environment name, the safety-relevant settings, and the verdict OBSERVED on the real\n   KyroDbConfig::validate; R is true when the regenerated model agrees (all unrelated guards passing).\n   `bad` lists the positions (0-based, within this shard) of the rows that disagree. *)\n");
     s.push_str("Definition R (nm : str) (fs : fsync_t) (sn : snap_t) (rm : recovery_t) (st : cache_strategy_t) (au rl : bool)\n    (ob : obs_auth_t) (fr tl gl hs hl : bool) (observed : bool) : bool :=\n  Bool.eqb (validate_raw nm {| env := EnvOther; fsync := fs; snapshot_interval := sn; recovery := rm; strategy := st;\n    auth := au; rate_limit := rl; obs_auth := ob; fresh_start := fr; tls := tl; grpc_loopback := gl;\n    http_host_set := hs; http_loopback := hl |} all_opaque_true) observed.\n");
     for (i, n) in names.iter().enumerate() {
         let _ = writeln!(s, "Definition n{} : str := {}.", i, coq_name(n));
     }
-    let _ = writeln!(s, "Definition rows : list bool := [\n  {}\n].", body);
+    s.push_str(&digit_fn("name_of", "str", (0..names.len()).map(|i| format!("n{}", i)).collect()));
+    s.push_str(&digit_fn("fs_of", "fsync_t", FSYNC.iter().map(|v| g(&ct.fsync, format!("{:?}", v))).collect()));
+    s.push_str(&digit_fn("sn_of", "snap_t", vec!["SnapZero".into(), "SnapPositive".into()]));
+    s.push_str(&digit_fn("rm_of", "recovery_t", RECOVERY.iter().map(|v| g(&ct.recovery, format!("{:?}", v))).collect()));
+    s.push_str(&digit_fn("st_of", "cache_strategy_t", STRATEGY.iter().map(|v| g(&ct.strategy, format!("{:?}", v))).collect()));
+    s.push_str(&digit_fn("ob_of", "obs_auth_t", OBS.iter().map(|v| g(&ct.obs, format!("{:?}", v))).collect()));
+    s.push_str("(* code = ((name * 10368 + ix) * 2 + observed); ix is the mixed-radix number with digits, most significant first,\n   fsync(3) snapshot(2: 0 = zero) recovery(2) strategy(3) auth(2) rate_limit(2) obs_auth(3) fresh_start(2) tls(2)\n   grpc bind(2: 1 = loopback) http bind(3: 0 = unset, 1 = loopback, 2 = non-loopback) *)\n");
+    s.push_str("Inductive row : Set := T (nm : str) (fs : fsync_t) (sn : snap_t) (rm : recovery_t) (st : cache_strategy_t) (au rl : bool)\n    (ob : obs_auth_t) (fr tl gl hs hl : bool) (observed : bool).\n");
+    s.push_str("Definition decode (code : N) : row :=\n  let observed := N.odd code in let x := N.div2 code in\n  let http := x mod 3 in let x := x / 3 in\n  let gl := x mod 2 in let x := x / 2 in\n  let tl := x mod 2 in let x := x / 2 in\n  let fr := x mod 2 in let x := x / 2 in\n  let ob := x mod 3 in let x := x / 3 in\n  let rl := x mod 2 in let x := x / 2 in\n  let au := x mod 2 in let x := x / 2 in\n  let st := x mod 3 in let x := x / 3 in\n  let rm := x mod 2 in let x := x / 2 in\n  let sn := x mod 2 in let x := x / 2 in\n  let fs := x mod 3 in let nm := x / 3 in\n  T (name_of nm) (fs_of fs) (sn_of sn) (rm_of rm) (st_of st) (au =? 1) (rl =? 1) (ob_of ob) (fr =? 1) (tl =? 1) (gl =? 1)\n    (negb (http =? 0)) (http =? 1) observed.\nDefinition agrees (t : row) : bool := match t with T nm fs sn rm st au rl ob fr tl gl hs hl observed => R nm fs sn rm st au rl ob fr tl gl hs hl observed end.\n");
+    if let Some((nix, r, acc)) = first {
+        let rd = coq_row_readable(nix, r, acc, ct).replacen("R ", "T ", 1);
+        let _ = writeln!(s, "(* the decoder is checked on the first row of the shard, written out by the driver *)");
+        let _ = writeln!(s, "Goal decode {} = {}. Proof. vm_compute. reflexivity. Qed.", coq_row(nix, r, acc, ct), rd);
+    }
+    let _ = writeln!(s, "Definition codes : list N := [\n  {}\n].", body);
+    s.push_str("Definition rows : list bool := map (fun c => agrees (decode c)) codes.\n");
     s.push_str("Fixpoint bad_from (i : N) (l : list bool) : list N :=\n  match l with [] => [] | b :: t => if b then bad_from (N.succ i) t else i :: bad_from (N.succ i) t end.\n");
     s.push_str("Definition bad : list N := bad_from 0%N rows.\n");
     s.push_str("Goal True. idtac \"@@bad\". Abort.\nEval vm_compute in bad.\nGoal True. idtac \"@@count\". Abort.\nEval vm_compute in (N.of_nat (length rows)).\n");
@@ -462,6 +487,7 @@ fn main() {
     let mut replay: Option<String> = None;
     let mut guards_path = String::from("/verif/.cache/gen/Config_gen.json");
     let mut server_samples = 0usize;
+    let mut variant_every = 60u64; // 1 = every name-variant row is also compared in coqc
     let mut i = 1;
     while i < args.len() {
         match args[i].as_str() {
@@ -470,6 +496,7 @@ fn main() {
             "--replay" => { replay = Some(args[i + 1].clone()); i += 1 }
             "--guards" => { guards_path = args[i + 1].clone(); i += 1 }
             "--server-samples" => { server_samples = args[i + 1].parse().unwrap(); i += 1 }
+            "--variant-every" => { variant_every = args[i + 1].parse::<u64>().unwrap().max(1); i += 1 }
             _ => {}
         }
         i += 1;
@@ -528,7 +555,7 @@ fn main() {
             chans.push(json!({"channel": ch, "accepted": o.accepted, "message": o.message}));
         }
         let names1 = vec![row.name.clone()];
-        std::fs::write(format!("{}/cases_0.v", out), shard_text(&names1, &coq_row(0, &row, acc, &ct))).unwrap();
+        std::fs::write(format!("{}/cases_0.v", out), shard_text(&names1, &coq_row(0, &row, acc, &ct), Some((0, &row, acc)), &ct)).unwrap();
         let summary = json!({"cases": 1, "shards": 1, "replay": true, "oracle_failures": fails, "accepted": acc, "message": msg,
             "channels": chans, "samples": [row.to_json()], "nontrivial": 1, "enum_mismatch": ct.mismatch, "guards_json_ok": guards.is_some(),
             "channel_disagreements": [], "variant_rows": 0, "variant_metamorphic_failures": [], "histogram": {}, "server_rows": [],
@@ -551,7 +578,7 @@ fn main() {
     let mut cur_n = 0usize;
     let mut shard_index: Vec<Vec<[usize; 3]>> = vec![]; // per shard: (name_ix, ix, pick) of every row, in order
     let mut cur_index: Vec<[usize; 3]> = vec![];
-    let shard_rows = 2592usize;
+    let shard_rows = 5184usize;
     let mut id = 0usize;
     let mut variant_meta_fail: Vec<Value> = vec![];
     let mut variant_coq: Vec<(usize, usize, Row, bool)> = vec![];
@@ -589,7 +616,7 @@ fn main() {
                     cur_n = 0;
                 }
                 if cur_n > 0 {
-                    cur.push_str(";\n  ");
+                    cur.push_str(if cur_n % 16 == 0 { ";\n  " } else { "; " });
                 }
                 cur.push_str(&coq_row(name_ix, &row, acc, &ct));
                 cur_index.push([name_ix, ix, row.pick]);
@@ -609,7 +636,7 @@ fn main() {
                 if acc != expect && variant_meta_fail.len() < 10 {
                     variant_meta_fail.push(json!({"case": row.to_json(), "accepted": acc, "canonical_name": canon, "canonical_accepted": expect}));
                 }
-                if rng.below(60) == 0 {
+                if rng.below(variant_every) == 0 {
                     variant_coq.push((id, name_ix, row.clone(), acc));
                 }
             }
@@ -625,11 +652,14 @@ fn main() {
     // sampled variant rows, evaluated in Coq through env_of_raw on the raw string
     for chunk in variant_coq.chunks(shard_rows) {
         let body: Vec<String> = chunk.iter().map(|(_, nix, r, a)| coq_row(*nix, r, *a, &ct)).collect();
-        shards.push(body.join(";\n  "));
+        shards.push(body.join("; "));
         shard_index.push(chunk.iter().map(|(_, nix, r, _)| [*nix, r.index(), r.pick]).collect());
     }
     for (k, body) in shards.iter().enumerate() {
-        std::fs::write(format!("{}/cases_{}.v", out, k), shard_text(&names, body)).unwrap();
+        let f = shard_index[k][0];
+        let r0 = Row::from_index(&names[f[0]], f[1], f[2]);
+        let (a0, _) = run_validate(&r0);
+        std::fs::write(format!("{}/cases_{}.v", out, k), shard_text(&names, body, Some((f[0], &r0, a0)), &ct)).unwrap();
     }
 
     // ---- distinct non-trivial rows of the base matrix: an ENVIRONMENT-DEPENDENT safety guard decides.
